@@ -1,5 +1,7 @@
 """Shared by C29 and C37: the T3 obligation text, template pool with state-carrying constructs,
 deep snapshots of inputs."""
+import collections
+import collections.abc
 import copy
 import os
 import sys
@@ -134,6 +136,13 @@ STATE_SNIPS = [
     "{% for k, v in d|dictsort %}{{ k }}={{ v }}{% endfor %}", "{% for x in nested recursive %}{% if x is iterable and x is not string %}{{ loop(x) }}{% else %}{{ x }}{% endif %}{% endfor %}",
     "{% filter upper %}{{ words|join }}{% endfilter %}", "{% with acc = acc + [9] %}{{ acc|length }}{% endwith %}{{ acc|length }}",
     "{% set acc2 = acc %}{% set acc2 = acc2 + [1] %}{{ acc2|length }}{{ acc|length }}",
+    # value kinds: tuple, Markup, a Mapping that is no dict, OrderedDict, frozenset, float / bool, str subclass,
+    # __iter__-only and __getitem__-only objects
+    "{{ tup|list }}{{ tup|sort }}{{ tup|sum }}{{ tup|reverse|list }}{{ tup|batch(2)|list }}", "{{ mku }}{{ mku|upper }}{{ [mku, text]|join }}{{ mku|striptags }}",
+    "{{ cmap|dictsort }}{{ cmap|items|list }}{{ cmap|xmlattr }}{{ cmap.k }}{{ cmap['n'] }}{{ cmap|length }}{% for k in cmap %}{{ k }}{% endfor %}",
+    "{{ od|dictsort }}{{ od|tojson }}{{ od|items|first }}{{ od|list }}", "{{ fs|list }}{{ fs|sum }}{{ 2 in fs }}", "{{ flt|round }}{{ flt|int }}{{ tru + 1 }}{{ [tru, 1, flt]|unique|list }}",
+    "{{ sub }}{{ sub|upper }}{{ d[sub] is undefined }}{{ [sub]|join }}{{ sub|length }}{{ {'sub': 1}[sub] }}", "{{ itr|list }}{{ itr|sum }}{{ itr|first }}{% for x in itr %}{{ x }}{{ loop.length }}{% endfor %}",
+    "{{ gis|list }}{{ gis[0] }}{% for x in gis %}{{ x }}{% endfor %}{{ gis|reverse|list }}",
     # a namespace built from a dict that belongs to the caller / the globals
     "{% set nsd = namespace(d) %}{% set nsd.k = 'changed' %}{{ nsd.k }}{{ nsd.a }}", "{% set nsg = namespace(gl) %}{% set nsg.a = 'x' %}{{ nsg.a }}",
     "{% set nst = namespace(tg, extra=1) %}{% set nst.k = 'y' %}{{ nst.k }}{{ nst.extra }}",
@@ -166,12 +175,69 @@ def special_signature(src):
     return None
 
 
+class CMap(collections.abc.Mapping):
+    """a Mapping that is not a dict"""
+
+    def __init__(self, d):
+        self._d = dict(d)
+
+    def __getitem__(self, k):
+        return self._d[k]
+
+    def __iter__(self):
+        return iter(self._d)
+
+    def __len__(self):
+        return len(self._d)
+
+    def __repr__(self):
+        return "CMap(%r)" % (self._d,)
+
+
+class StrSub(str):
+    """a str subclass with its own __str__ / __eq__ / __hash__"""
+
+    def __str__(self):
+        return "S:" + str.__str__(self)
+
+    def __eq__(self, other):
+        return str.__eq__(self, other)
+
+    def __hash__(self):
+        return str.__hash__(self)
+
+
+class IterOnly:
+    def __init__(self, items):
+        self.items = list(items)
+
+    def __iter__(self):
+        return iter(self.items)
+
+    def __repr__(self):
+        return "IterOnly(%r)" % (self.items,)
+
+
+class GetItemOnly:
+    def __init__(self, items):
+        self.items = list(items)
+
+    def __getitem__(self, i):
+        return self.items[i]
+
+    def __repr__(self):
+        return "GetItemOnly(%r)" % (self.items,)
+
+
 def make_inputs():
     data = {
         "nums": [3, 1, 2], "words": ["b", "a", "c", "a"], "lists": [[1], [2, 3]], "acc": [7], "base": 10,
         "nested": [["p", "q"], ["r"]], "recs": [{"n": 1, "a": "x"}, {"n": 2, "a": "y"}, {"n": 1, "a": "z"}],
         "d": {"k": "v", "a": 1}, "lines": "l1\nl2", "text": "some text http://x.y <b>bold</b>",
     }
+    from markupsafe import Markup
+    data.update(tup=(3, 1, 2), mku=Markup("<b>m</b>"), cmap=CMap({"k": "v", "n": 2}), od=collections.OrderedDict(b=1, a=2),
+                fs=frozenset([2]), flt=1.5, tru=True, sub=StrSub("sub"), itr=IterOnly([4, 5]), gis=GetItemOnly([6, 7]))
     env_globals = {"gl": {"a": "ga", "its": ["g1", "g2"]}}
     tpl_globals = {"tg": {"k": "tk", "lst": [1, 2]}, "tgv": "T0"}
     data["zero"] = 0
